@@ -678,6 +678,16 @@ class Interp:
         env = fr.env
         for name, v in zip(fn.params, args):
             env[name] = v
+        # zero-sized closures (no captures) are never assigned in MIR: give their locals a value up front
+        zs = getattr(fn, '_zst', None)
+        if zs is None:
+            zs = [(n, t) for n, t in fn.locals.items() if isinstance(t, str) and t.startswith('{closure@') and n not in fn.params]
+            try:
+                fn._zst = zs
+            except AttributeError:
+                pass
+        for n, t in zs:
+            env.setdefault(n, Closure(t, [], []))
         st = ctx.stats
         st.fns[fn.name] = fn.sha
         blocks = fn.blocks
